@@ -779,9 +779,20 @@ def register(reg, prog):
                 g.append(('cancels-this-exchange-timer', ex.truth(s, ex.spec_val(s, 'h is cancellable', env=dict(ex.visible_env(s), h=e[1])))))
         return g
 
+    def sd_pb_step(ex, s, snap):
+        evs_ = s.log[len(snap.log):]
+        g = [('one-cancel-per-pending-ack', B(len(evs_) == 1 and evs_[0][0] == 'cancel'))]
+        for e in evs_:
+            if e[0] == 'cancel':
+                g.append(('cancels-this-ack-timer', ex.truth(s, ex.spec_val(s, 'h is ack_handle', env=dict(ex.visible_env(s), h=e[1])))))
+        return g
+
     def sd_at_await(ex, s, entry, env):
         ev = Ev(ex, s, entry, env)
         return [('exchanges-dropped-before-transport-shutdown', ev('self._active_exchanges is None')),
+                # C18 "no timer or callback of it raises in the event loop [after shutdown]": an empty-ACK timer left armed fires into
+                # the transport that was shut down; every entry of _piggyback_opportunities stands for one armed timer (I-pb)
+                ('no-empty-ack-timer-left-armed', ev('len(self._piggyback_opportunities) == 0')),
                 ('no-monitor-called', B(not evs(s, 'call'))),
                 ('nothing-transmitted', B(not evs(s, 'wire', 'send_initially'))),
                 ('invariant-after-shutdown', ev('mm_inv_sd(self)')),
@@ -791,5 +802,5 @@ def register(reg, prog):
 
     reg.contract(MM + '.shutdown', properties=['C18'], requires=['mm_inv(self)'],
                  raises={'CancelledError': MAY}, only_raises=True,
-                 loop_steps={0: [sd_step]},
+                 loop_steps={0: [sd_step], 1: [sd_pb_step]}, hints={'{}': reg.classes['MessageManager'].fields['_piggyback_opportunities']},
                  awaits={0: {'check': sd_at_await, 'havoc': True}}, modifies=['*'])
